@@ -115,3 +115,18 @@ func setGCPause(b bool) {
 		stats.ForcedGCs++
 	}
 }
+
+// GCBetweenOps is the collector fault at operation boundaries: when the run has
+// collection points at all (trees whose behaviour can depend on what the
+// collector has freed), one operation boundary in three forces a collection, so
+// that a value dropped by one operation is gone - and its memory reusable - when
+// the next one allocates.
+func GCBetweenOps() {
+	if !Active() || !gcFaultOn() {
+		return
+	}
+	forceGC()
+}
+
+//go:norace
+func gcFaultOn() bool { return faults.GCPoints > 0 && frng.next()%2 == 0 }
